@@ -29,7 +29,8 @@ func newRockIterator(db *gorocksdb.DB,
 	if opts.Type&common.RangeROpen <= 0 && upperBound != nil {
 		// range right not open, we need inclusive the max,
 		// however upperBound is exclusive
-		upperBound = append(upperBound, 0)
+		// (copy: never write into the spare capacity of the caller's Max)
+		upperBound = append(upperBound[:len(upperBound):len(upperBound)], 0)
 	}
 	dbit := &rockIterator{
 		db: db,
